@@ -768,7 +768,14 @@ class QueryObjectDescriptor(SymbolicExpression[T], ABC):
     ) -> Iterable[OperationResult]:
         sources = sources or {}
         self._eval_parent_ = parent
+        # a rule query (its condition tree carries conclusions) answers with what its rows conclude
+        is_rule_query = self._child_ is not None and any(
+            node._conclusion_ for node in self._child_._all_nodes_
+        )
         for values in self.get_constrained_values(sources):
+            if is_rule_query and not self._child_._conclusion_:
+                # nothing (new) was selected for this row: it must not hand out what other rows inferred
+                continue
             self.evaluate_conclusions_and_update_bindings(values)
             if self.any_selected_variable_is_inferred_and_unbound(values):
                 continue
